@@ -835,6 +835,85 @@ fn drop_race_probe(trials: u64) -> String {
     )
 }
 
+// ------------------------------------------------------------------ one task, one waker, several futures
+// A task that awaits several sends at once (select / join) polls all of them with the SAME waker.
+// Oracle only: after every operation (and after re-polling everything whenever the shared waker fired) no send may
+// stay pending on a channel whose receiver is gone, and none may stay pending while an open channel is empty.
+struct CountWaker(AtomicU64);
+impl Wake for CountWaker {
+    fn wake(self: Arc<Self>) { self.0.fetch_add(1, Ordering::SeqCst); }
+    fn wake_by_ref(self: &Arc<Self>) { self.0.fetch_add(1, Ordering::SeqCst); }
+}
+fn shared_waker_case(rng: &mut Rng, id: u64) -> String {
+    let n = 2 + rng.below(2) as usize;
+    let (txs, rxs) = channels::<u64>(n);
+    let mut rxs: Vec<Option<_>> = rxs.into_iter().map(Some).collect();
+    let cw = Arc::new(CountWaker(AtomicU64::new(0)));
+    let waker = Waker::from(cw.clone());
+    let mut qlen = vec![0i64; n];
+    let mut pending: Vec<(usize, Pin<Box<dyn Future<Output = Result<(), SendError<u64>>> + '_>>)> = vec![];
+    let mut log: Vec<String> = vec![];
+    let mut why = String::new();
+    let mut seen_wakes = 0u64;
+    let steps = 4 + rng.below(10);
+    for step in 0..steps {
+        let r = rng.below(10);
+        if r < 5 {
+            let c = rng.below(n as u64) as usize;
+            let mut f: Pin<Box<dyn Future<Output = Result<(), SendError<u64>>> + '_>> = Box::pin(txs[c].send(step));
+            let mut cx = Context::from_waker(&waker);
+            match f.as_mut().poll(&mut cx) {
+                Poll::Ready(Ok(())) => { qlen[c] += 1; log.push(format!("send {c} ok")); }
+                Poll::Ready(Err(_)) => { log.push(format!("send {c} err")); if rxs[c].is_some() { why = format!("send on channel {c} failed although its receiver is alive"); } }
+                Poll::Pending => { log.push(format!("send {c} pending")); pending.push((c, f)); }
+            }
+        } else if r < 7 {
+            let c = rng.below(n as u64) as usize;
+            if let Some(rx) = rxs[c].as_mut() {
+                let mut cx = Context::from_waker(&waker);
+                let mut f = Box::pin(rx.recv());
+                match f.as_mut().poll(&mut cx) {
+                    Poll::Ready(Some(_)) => { qlen[c] -= 1; log.push(format!("recv {c} some")); }
+                    Poll::Ready(None) => log.push(format!("recv {c} none")),
+                    Poll::Pending => log.push(format!("recv {c} pending")),
+                }
+            }
+        } else {
+            let c = rng.below(n as u64) as usize;
+            if rxs[c].take().is_some() { log.push(format!("drop receiver {c}")); }
+        }
+        // the task runs again whenever its waker fired: it re-polls everything it still awaits
+        loop {
+            let w = cw.0.load(Ordering::SeqCst);
+            if w == seen_wakes { break; }
+            seen_wakes = w;
+            let mut keep = vec![];
+            for (c, mut f) in pending.drain(..) {
+                let mut cx = Context::from_waker(&waker);
+                match f.as_mut().poll(&mut cx) {
+                    Poll::Ready(Ok(())) => { qlen[c] += 1; log.push(format!("resend {c} ok")); }
+                    Poll::Ready(Err(_)) => log.push(format!("resend {c} err")),
+                    Poll::Pending => keep.push((c, f)),
+                }
+            }
+            pending = keep;
+        }
+        for (c, _) in &pending {
+            if rxs[*c].is_none() && why.is_empty() {
+                why = format!("after step {step}: a send is still pending on channel {c} whose receiver was dropped, and the task's waker was not woken");
+            }
+        }
+        let gate_open = (0..n).any(|c| rxs[c].is_some() && qlen[c] == 0);
+        if gate_open && !pending.is_empty() && why.is_empty() {
+            why = format!("after step {step}: {} send(s) pending although an open channel is empty, and the task's waker was not woken", pending.len());
+        }
+        if !why.is_empty() { break; }
+    }
+    drop(pending);
+    format!("{{\"k\":\"shared_waker\",\"id\":{id},\"n\":{n},\"log\":[{}],\"ok\":{},\"why\":{}}}",
+            log.iter().map(|l| json_str(l)).collect::<Vec<_>>().join(","), why.is_empty(), json_str(&why))
+}
+
 fn main() {
     let args: Vec<String> = std::env::args().collect();
     let seed: u64 = arg(&args, "--seed", "1").parse().unwrap();
@@ -845,6 +924,11 @@ fn main() {
     let mut rng = Rng::new(seed);
     for i in 0..n {
         println!("{}", sched_case(&mut rng, i));
+    }
+    for i in 0..n * 6 {
+        let line = catch_unwind(AssertUnwindSafe(|| shared_waker_case(&mut rng, i)))
+            .unwrap_or_else(|_| format!("{{\"k\":\"shared_waker\",\"id\":{i},\"ok\":false,\"why\":\"panic\"}}"));
+        println!("{}", line);
     }
     if nstress > 0 {
         let rt = tokio::runtime::Builder::new_multi_thread().worker_threads(4).enable_time().build().unwrap();
